@@ -484,3 +484,7 @@ def run(ctx):
              "the field parse_clkoff_entry turns into the loom's clock offset (identified by value, not by name)")
     from rules import round4
     round4.check_clock_table_column(ctx, "R3.6")
+    ctx.rule("R3.7", "ovnidump replays every event of any loadable trace: it starts the player in unsorted mode, the "
+             "emulator in strict mode")
+    from rules import round6
+    round6.check_dump_player_mode(ctx, "R3.7")
